@@ -229,6 +229,8 @@ func runC07(c *report.Ctx) {
 	c.Clause("6 the substitute error reply cannot panic; shutdown cannot wait for an extension that never started")
 	checkReplySinkGuards(c) // trySendDefaultErrorResponse tolerates exactly the refusals the sink returns for a stale id
 	checkShutdownAgents(c)  // wg.Add per started extension only: reset/shutdown return
+	checkWatchdogIndependent(c)
+	checkTeardownBeforeAnswer(c) // reset deadline on the monotonic clock the shutdown measures against
 }
 
 // reachableSync2: from background roots, following go statements too (a goroutine started by a
